@@ -1,8 +1,13 @@
 package main
 
 import (
+	"encoding/json"
 	"fmt"
+	"io/ioutil"
 	"math"
+	"os"
+	"os/exec"
+	"path/filepath"
 	"time"
 
 	"github.com/brocaar/lorawan"
@@ -246,7 +251,7 @@ func streamEvent(dir, where string, items []M) M {
 var emptyCIDs = map[string][]int{"down": {6, 16}, "up": {2, 4, 8, 9, 12, 13}}
 
 func (c *ctx) genStream(dir string, maxBytes int) []M {
-	var items []M
+	items := []M{}
 	total := 0
 	var keys []string
 	for _, k := range cmdKeys {
@@ -381,4 +386,195 @@ func drvMacCmd(c *ctx) error {
 		return fmt.Errorf("maccmd: unknown mode %q", c.mode)
 	}
 	return nil
+}
+
+// ---- registry histories (stateful; the registry is process-global, so every history runs in a
+// fresh child process) ----------------------------------------------------------------------------
+
+func init() { families["registry"] = drvRegistry }
+
+type regOp struct {
+	dir  string
+	cid  int
+	size int
+}
+
+func regLookups(c *ctx, cids []int) {
+	for _, dir := range []string{"down", "up"} {
+		for _, cid := range cids {
+			ev := M{"ev": "lookup", "dir": dir, "cid": cid}
+			var size int
+			res, _ := observeFast(func() error {
+				var err error
+				_, size, err = lorawan.GetMACPayloadAndSize(dir == "up", lorawan.CID(cid))
+				return err
+			})
+			ev["err"] = res
+			if res == "" {
+				ev["size"] = size
+			}
+			c.emit(ev)
+		}
+	}
+}
+
+func rawStreamEvent(dir string, cmds []M) M {
+	ev := M{"ev": "pstream", "dir": dir, "cmds": cmds}
+	var pls []lorawan.Payload
+	for _, cm := range cmds {
+		mc := &lorawan.MACCommand{CID: lorawan.CID(cm["cid"].(int))}
+		raw := cm["raw"].([]int)
+		if len(raw) > 0 {
+			mc.Payload = &lorawan.ProprietaryMACCommandPayload{Bytes: unbsAny(raw)}
+		}
+		pls = append(pls, mc)
+	}
+	mt := lorawan.UnconfirmedDataDown
+	if dir == "up" {
+		mt = lorawan.UnconfirmedDataUp
+	}
+	mp := &lorawan.MACPayload{FHDR: lorawan.FHDR{DevAddr: lorawan.DevAddr{1, 2, 3, 4}, FCnt: 7, FOpts: pls}}
+	phy := lorawan.PHYPayload{MHDR: lorawan.MHDR{MType: mt}, MACPayload: mp}
+	var b []byte
+	res, _ := observeFast(func() error {
+		var err error
+		b, err = phy.MarshalBinary()
+		return err
+	})
+	ev["err"] = res
+	if res != "" {
+		return ev
+	}
+	ev["bytes"] = bs(b[8 : len(b)-4])
+	var back lorawan.PHYPayload
+	dres, _ := observeFast(func() error {
+		if err := back.UnmarshalBinary(b); err != nil {
+			return err
+		}
+		return back.DecodeFOptsToMACCommands()
+	})
+	ev["derr"] = dres
+	if dres == "" {
+		outs := []interface{}{}
+		if bmp, ok := back.MACPayload.(*lorawan.MACPayload); ok {
+			for _, g := range bmp.FHDR.FOpts {
+				outs = append(outs, itemToVal(dir, g))
+			}
+		}
+		ev["back"] = outs
+	}
+	return ev
+}
+
+func (c *ctx) genRawStream(dir string, propCIDs []int) []M {
+	std := map[string][][]int{
+		"down": {{6}, {8, 5}, {2, 1, 2}, {3, 0x50, 0xff, 0, 1}, {13, 1, 2, 3, 4, 5}, {10, 1, 2, 3, 4}},
+		"up":   {{2}, {3, 7}, {6, 200, 31}, {13}, {16, 3}},
+	}
+	out := []M{}
+	total := 0
+	n := c.rnd.Intn(5)
+	for i := 0; i < n; i++ {
+		var cid int
+		var raw []int
+		if c.rnd.Intn(2) == 0 || len(propCIDs) == 0 {
+			s := std[dir][c.rnd.Intn(len(std[dir]))]
+			cid, raw = s[0], append([]int{}, s[1:]...)
+		} else {
+			cid = propCIDs[c.rnd.Intn(len(propCIDs))]
+			raw = make([]int, c.rnd.Intn(4))
+			for j := range raw {
+				raw[j] = 128 + c.rnd.Intn(128) // leftovers re-parse as proprietary CIDs, never as RFU-sensitive standard payloads
+			}
+		}
+		if total+1+len(raw) > 15 {
+			break
+		}
+		total += 1 + len(raw)
+		out = append(out, M{"cid": cid, "raw": raw})
+	}
+	return out
+}
+
+func drvRegistry(c *ctx) error {
+	switch c.mode {
+	case "child": // one history, in this fresh process
+		c.emit(M{"ev": "reset"})
+		var ops []regOp
+		for _, cs := range c.cases {
+			for _, o := range cs["hist"].([]interface{}) {
+				m := o.(M)
+				ops = append(ops, regOp{m["dir"].(string), num(m["cid"]), num(m["size"])})
+			}
+		}
+		cids := []int{1, 2, 3, 6, 7, 13, 14, 32, 127, 128, 200, 255}
+		var prop []int
+		for _, o := range ops {
+			cids = append(cids, o.cid&0xff)
+			if o.cid >= 128 && o.cid <= 255 { // payload bytes of standard CIDs come from the fixed RFU-clean table
+				prop = append(prop, o.cid)
+			}
+		}
+		prop = append(prop, 128, 200, 255)
+		regLookups(c, cids)
+		for _, o := range ops {
+			ev := M{"ev": "register", "dir": o.dir, "cid": o.cid, "size": o.size}
+			res, _ := observeFast(func() error {
+				return lorawan.RegisterProprietaryMACCommand(o.dir == "up", lorawan.CID(o.cid), o.size)
+			})
+			ev["err"] = res
+			c.emit(ev)
+			regLookups(c, cids)
+			for i := 0; i < 6; i++ {
+				dir := []string{"down", "up"}[i%2]
+				c.emit(rawStreamEvent(dir, c.genRawStream(dir, prop)))
+			}
+		}
+		return nil
+	case "cases", "random":
+		var hists []M
+		if c.mode == "cases" {
+			hists = c.cases
+		} else {
+			for i := 0; i < c.n; i++ {
+				var h []interface{}
+				for j := 0; j < 1+c.rnd.Intn(6); j++ {
+					cid := c.rnd.Intn(256)
+					if c.rnd.Intn(3) > 0 {
+						cid = 128 + c.rnd.Intn(128)
+					}
+					h = append(h, M{"dir": []string{"down", "up"}[c.rnd.Intn(2)], "cid": cid, "size": c.rnd.Intn(6)})
+				}
+				hists = append(hists, M{"hist": h})
+			}
+		}
+		self, err := os.Executable()
+		if err != nil {
+			return err
+		}
+		dir, err := ioutil.TempDir(filepath.Dir(c.f.Name()), "regchild")
+		if err != nil {
+			return err
+		}
+		defer os.RemoveAll(dir)
+		for i, h := range hists {
+			cf := filepath.Join(dir, "case.json")
+			b, _ := json.Marshal(h)
+			if err := ioutil.WriteFile(cf, b, 0644); err != nil {
+				return err
+			}
+			of := filepath.Join(dir, "out.ndjson")
+			cmd := exec.Command(self, "record", "registry", "--mode", "child", "--cases", cf, "--out", of, "--seed", fmt.Sprint(c.seed+int64(i)))
+			if out, err := cmd.CombinedOutput(); err != nil {
+				return fmt.Errorf("registry child failed: %v: %s", err, out)
+			}
+			ob, err := ioutil.ReadFile(of)
+			if err != nil {
+				return err
+			}
+			c.w.Write(ob)
+		}
+		return nil
+	}
+	return fmt.Errorf("registry: unknown mode %q", c.mode)
 }
